@@ -6,6 +6,18 @@ import os
 VERIF = os.path.dirname(os.path.dirname(os.path.abspath(__file__)))
 
 CLAIMED = {
+    "C01": dict(
+        text="Lean theorems, for every bit width at once: the LLVM instruction the generator selects for each operator "
+             "(add/sub/mul, sdiv/udiv, srem/urem by signedness of the operand type, and/or/xor, shl/lshr, icmp s*/u*, "
+             "neg, not, trunc/sext/zext) computes the documented result on values (`arith_sound`, `sdiv_sound`, `udiv_sound`, "
+             "`cmp_sound`, ...). A source-level Lean interpreter (wrapping integers, forward gotos, block loops, auto-deref "
+             "pointers, views, lengths, calls, constants) is compared with lli on the IR of type-directed random programs "
+             "under random layouts (stdout and exit status). Partial: the lowering of control flow and address computation "
+             "is not a theorem; structs/words are not yet in the generated class.",
+        note="Trusted: Lean kernel, the interpreter as the formalisation of the documented semantics (its operator layer is what "
+             "the theorems speak about), the program generator's two renderings (source / S-expression), lli 14 as executor.",
+        technique="Lean 4 proof (BitVec operator soundness, all widths) + interpreter-vs-lli correspondence on generated programs",
+        design="§4 C01"),
     "C04": dict(
         text="Lean theorem `Labels.labels_scope_iff`: for every function body (unbounded length and nesting) the model of "
              "label_references.rs raises exactly the E400/E420 codes of a forward, positional specification; the model is tied "
